@@ -26,6 +26,9 @@ pub struct DripCase {
     /// block is still clogged (instead of after it went quiet)
     #[serde(default)]
     pub close_early: bool,
+    /// drain phase: one output port per round, in rotation
+    #[serde(default)]
+    pub lopsided: bool,
 }
 fn sz_all() -> crate::ring::Sz {
     crate::ring::Sz::All
@@ -55,9 +58,9 @@ pub fn dripcase_strategy(
         prop_oneof![14 => 1u8..5, 1 => Just(16u8), 1 => Just(64u8)],
         schedule_strategy(max_sched),
         drain_sz(),
-        (drain_sz(), prop::bool::weighted(0.3)),
+        (drain_sz(), prop::bool::weighted(0.3), prop::bool::weighted(0.3)),
     )
-        .prop_map(|(spec, gens, tag_every, in_pages, out_pages, schedule, drain_feed, (drain_free, close_early))| DripCase {
+        .prop_map(|(spec, gens, tag_every, in_pages, out_pages, schedule, drain_feed, (drain_free, close_early, lopsided))| DripCase {
             spec,
             gens,
             tag_every,
@@ -67,6 +70,7 @@ pub fn dripcase_strategy(
             drain_feed,
             drain_free,
             close_early,
+            lopsided,
         })
         .boxed()
 }
@@ -90,6 +94,7 @@ pub fn drive_opts(case: &DripCase) -> DriveOpts {
         drain_feed: case.drain_feed,
         drain_free: case.drain_free,
         close_early: case.close_early,
+        lopsided: case.lopsided,
         ..DriveOpts::default()
     }
 }
